@@ -775,6 +775,9 @@ def _pays_own_debt(fx):
         if some_succ is not None and pays:
             reach = b.reach_from(some_succ, unwind=False, avoid=pays)
             ok = not any(b.term(x)['k'] == 'return' for x in reach)
+            # and the debt is looked at on every path: no early return (e.g. "a NULL has nothing to release") skips the take
+            skip = b.reach_from(0, unwind=False, avoid={tbb})
+            ok = ok and not any(b.term(x)['k'] == 'return' for x in skip)
         out[b.key] = (ok, b)
     return out
 
@@ -783,7 +786,7 @@ def rule_slot_closed(fx, col):
     cx = O.ctx(fx)
     own = _pays_own_debt(fx)
     for k, (ok, b) in sorted(own.items()):
-        col.add('SLOT-CLOSED', '%s|pays its debt' % b.fname, ok, 'after self.debt.take() == Some(d) every path to return passes d.pay(..)')
+        col.add('SLOT-CLOSED', '%s|pays its debt' % b.fname, ok, 'self.debt.take() on every path, and after Some(d) every path to return passes d.pay(..)')
     col.floor('SLOT-CLOSED', 'consumers of a protection that pay its debt', sum(1 for k in own if own[k][0]), 2)
     n = 0
     for b in fx.lib.bodies:
